@@ -365,17 +365,37 @@ def run_harnesses(src, specs, logdir, jobs=8, build_first=True, build_timeout=90
                 results[kr.harness] = (kr, parsed)
                 log("  %-46s %-12s %6.1fs %s" % (kr.harness, parsed["error"] or parsed["verdict"], kr.wall,
                                                  ("vars=%s" % parsed["stats"].get("sat_vars")) if parsed["stats"].get("sat_vars") else ""))
-    # retry pass: a harness whose solver ran out of memory under its (small) reservation is re-run
-    # alone with most of the machine; only if that also fails is it reported inconclusive
+    # repair rounds: (a) a harness may declare `auto_unwind=N`: loops named by `auto_unwind_match` that hit the
+    # harness-wide bound (CBMC's "Unwinding loop <id> iteration <k>" lines) get the per-loop bound N;
+    # (b) a harness whose solver ran out of memory under its (small) reservation is re-run alone with most of
+    # the machine.  Only what is still undecided after these rounds is reported inconclusive.
     if not _second_pass:
         big = float(os.environ.get("VERIF_BIG_MEM_GB", "48"))
-        oom = [sp for sp in specs if results[sp["harness"]][1]["error"] == "cbmc-error" and sp.get("mem_gb", 12) < big]
-        if oom:
-            log("re-running %d harness(es) that ran out of memory, one at a time with %.0f GB" % (len(oom), big))
-            for sp in oom:
-                sp2 = dict(sp, mem_gb=big, timeout=int(sp.get("timeout", 600) * 1.5))
-                r2 = run_harnesses(src, [sp2], os.path.join(logdir, "bigmem"), jobs=1, build_first=False, _second_pass=True)
-                results[sp["harness"]] = r2[sp["harness"]]
+        for _round in range(4):
+            todo = []
+            for sp in specs:
+                kr, pr = results[sp["harness"]]
+                if pr["error"] == "cbmc-error" and sp.get("mem_gb", 12) < big:
+                    sp["mem_gb"] = big
+                    sp["timeout"] = int(sp.get("timeout", 600) * 1.5)
+                    todo.append(sp)
+                elif sp.get("auto_unwind") and pr["unwinding_failed"] and not pr["error"]:
+                    best = {}
+                    for m in re.finditer(r"Unwinding loop (\S+) iteration (\d+)", kr.output()):
+                        best[m.group(1)] = max(best.get(m.group(1), 0), int(m.group(2)))
+                    cur = list(sp.get("unwindset") or [])
+                    have = set(x.split(":")[0] for x in cur)
+                    pats = sp.get("auto_unwind_match") or ["generic_array"]
+                    add = [k for k in best if k not in have and any(p in k for p in pats)]
+                    if add:
+                        sp["unwindset"] = cur + ["%s:%d" % (i, sp["auto_unwind"]) for i in add]
+                        todo.append(sp)
+            if not todo:
+                break
+            log("repair round %d: re-running %d harness(es) (per-loop unwind bounds raised / more memory)" % (_round + 1, len(todo)))
+            r2 = run_harnesses(src, todo, os.path.join(logdir, "round%d" % (_round + 1)), jobs=jobs, build_first=False, _second_pass=True)
+            for h, v in r2.items():
+                results[h] = v
     # second pass: harnesses that FAILED are re-run with concrete playback to obtain the values of the
     # counterexample (asking CBMC for traces on the first pass makes every cover! witness emit a full
     # trace, which is slow and can exhaust the driver's memory)
